@@ -293,8 +293,9 @@ def SoftSigner.run : List SoftOp → SoftSigner → List SoftOut × SoftSigner
     let (os, final) := SoftSigner.run ops s'
     (o :: os, final)
 
-/-- the methods of `SoftwareSigner` that produce a signature: every public `sign*` of the class, as the
-    translator enumerates them from the class itself (a new one appears here, and in the guard table). -/
+/-- the methods of `SoftwareSigner` that can produce a signature or hand out a key: every public method whose body
+    reaches the key material or a signing primitive, as the translator decides on the AST of the class itself (a new
+    one appears here whatever its name, and in the guard table). -/
 def signingMethods : List String := Gen.Lifecycle.softwareSignerSigning
 
 /-! ## Wallet: `RangedWallet` -/
@@ -679,5 +680,32 @@ def Cap.reference {χ ν : Type} (M : χ → ν) : List (CapOp χ) → CapState 
     if i < st.objs.length then some (.ok (M x)) :: Cap.reference M ops { st with objs := dropAt st.objs i }
     else some (.error .foreign) :: Cap.reference M ops st
   | .call _ x :: ops, st => some (.ok (M x)) :: Cap.reference M ops st
+
+/-- a free-function history read as a history of the holding machine (no object is built or used). -/
+def embedFree {χ : Type} (serves : χ → Bool) : BackendOp χ → CapOp χ
+  | .set s i => .set s i
+  | .call x => .call (serves x) x
+
+/-! ## The memos of btclib this property accounts for
+
+Every entry is an instance of the `Memo` machine above, whose theorem holds for ANY eviction policy: `lru n` is
+functools' bounded LRU (`Lru`, `lru_call_transparent`), `unbounded` is `functools.cache` (no eviction but
+`cache_clear`), `perInstance` is `functools.cached_property` (one entry per object, never evicted), `moduleTable` a
+module-level dict filled on first use.  The list is COMPARED with what introspection of the imported package finds
+(`Gen.Lifecycle.cacheInventory`, theorem `cache_inventory_covered`); the harness holds, for each name, the calls that
+go through it and checks each run that they do (`cache.inventory` oracle). -/
+def coveredCaches : List CacheDecl := [
+  ⟨"btclib.bip32.bip32._cached_base58_decode", .lru 2048, false⟩,
+  ⟨"btclib.curves.curve_group._cached_fixed_base_multiples", .lru 128, true⟩,
+  ⟨"btclib.curves.curve_group._cached_multiples", .lru 128, true⟩,
+  ⟨"btclib.curves.curve_group._cached_multiples_fixwind", .lru 128, true⟩,
+  ⟨"btclib.curves.curve_group._cached_odd_multiples_aff", .lru 128, true⟩,
+  ⟨"btclib.ecc.ellswift._CONSTANTS", .moduleTable, true⟩,
+  ⟨"btclib.ecc.pedersen.second_generator", .lru 128, true⟩,
+  ⟨"btclib.key.PrvKeyData.pub", .perInstance, false⟩,
+  ⟨"btclib.key.PubKeyData.point", .perInstance, false⟩,
+  ⟨"btclib.mnemonic.electrum._old_word_indexes", .unbounded, false⟩,
+  ⟨"btclib.mnemonic.electrum._old_wordlist", .unbounded, false⟩,
+  ⟨"btclib.script.script.Script.asm", .perInstance, false⟩]
 
 end Btc.C20
